@@ -270,3 +270,23 @@ Proof.
   destruct (win_fold_n h (win_empty n m)) as [N M]. cbn [win_empty w_n w_min] in N, M.
   rewrite N in *. auto.
 Qed.
+
+Lemma window_is_lastn_l : forall n m h, 0 < n -> wincreasing MIN_DT h ->
+  w_values (win_run n m h) = lastn n (spec_whist h []).
+Proof. intros n m h P W. exact (proj1 (window_is_lastn_gen n m h P W)). Qed.
+
+Lemma window_valid_iff_l : forall n m h, 0 < n -> wincreasing MIN_DT h ->
+  w_all_valid (win_run n m h) = (m <=? Nat.min (length (spec_whist h [])) n).
+Proof.
+  intros n m h P W. destruct (window_is_lastn_gen n m h P W) as [_ [S M]].
+  unfold w_all_valid. rewrite S, M. reflexivity.
+Qed.
+
+(* validity only once the minimum count is reached: below min_period the window is not (all_)valid,
+   from min_period on it is *)
+Lemma window_valid_threshold_l : forall n m h, 0 < n -> m <= n -> wincreasing MIN_DT h ->
+  (w_all_valid (win_run n m h) = true <-> m <= length (spec_whist h [])).
+Proof.
+  intros n m h P L W. rewrite (window_valid_iff_l n m h P W).
+  destruct (Nat.leb_spec m (Nat.min (length (spec_whist h [])) n)); split; intros; try lia; try discriminate; auto.
+Qed.
